@@ -6,6 +6,7 @@ import (
 	"sort"
 	"strings"
 
+	"cosmossdk.io/math"
 	cmttypes "github.com/cometbft/cometbft/types"
 	lockingtypes "github.com/goatnetwork/goat/x/locking/types"
 
@@ -159,6 +160,48 @@ func c13History(c *vc.Ctx, idx int) {
 	c.Sample(map[string]any{"max_validators": K, "genesis_powers": powers, "blocks": h.ch.Height, "validators_at_end": len(h.post.Locking.Validators), "last_ops": lastN(h.opsLog, 4)})
 }
 
+// c13Bounds: "no total-power overflow" over the configurations the module itself accepts. The real parameter validation
+// is asked for the largest validator-set size it lets through, the real power arithmetic for the largest power one
+// validator can reach (adding one unit at a time would take forever: AddPower is probed at the edges), and a set of that
+// size at that power is handed to a real CometBFT validator set the way a full active set would be.
+func c13Bounds(c *vc.Ctx) {
+	p := lockingtypes.DefaultParams()
+	maxK := int64(0)
+	for k := int64(1); k <= 4096; k++ {
+		p.MaxValidators = k
+		if p.Validate() == nil {
+			maxK = k
+		}
+	}
+	c.Eval(1)
+	c.Count("largest_validator_set_size_the_parameters_accept", int(maxK))
+	// the largest power AddPower lets a validator reach
+	top := uint64(0)
+	for _, cand := range []uint64{lockingtypes.MaxValidatorPower, lockingtypes.MaxValidatorPower + 1, 1 << 60, 1 << 62, 1<<63 - 1} {
+		if v, ok := lockingtypes.AddPower(0, math.NewIntFromUint64(cand)); ok && v > top {
+			top = v
+		}
+		if v, ok := lockingtypes.AddPower(cand-1, math.NewInt(1)); ok && v > top {
+			top = v
+		}
+	}
+	c.Nontrivial("bounds maxK=%d top=%d", maxK, top)
+	if maxK == 0 || top == 0 {
+		c.Inconclusive("could not probe the bounds (largest set size %d, largest power %d)", maxK, top)
+		return
+	}
+	var ups []*cmttypes.Validator
+	for i := int64(0); i < maxK; i++ {
+		ups = append(ups, cmttypes.NewValidator(world.NewValKey(c.Seed, "c13bounds", int(i)).Priv.PubKey(), int64(top)))
+	}
+	vs := cmttypes.NewValidatorSet(nil)
+	if err := vs.UpdateWithChangeSet(ups); err != nil {
+		c.Violation("a full validator set at the largest power the module allows is not acceptable to CometBFT: "+errClass(err.Error()),
+			fmt.Sprintf("%d validators (the largest size the parameters accept) x power %d (the largest AddPower allows): %v", maxK, top, err), map[string]any{"max_validators": maxK, "max_power": top})
+	}
+	c.Count("bound_probes", 1)
+}
+
 func init() {
 	vc.Register(&vc.Check{
 		ID: "C13", Title: "Validator set is the top-K by power; every update is acceptable to CometBFT", Level: "exploration",
@@ -167,8 +210,12 @@ func init() {
 			"(two heights later, as CometBFT does) and the monitor checks: the update was accepted, accumulated set = module record = exported validators, <= K members all active with their exact positive power, no eligible non-member stronger than a member or left out of a non-full set, FinalizeBlock never fails. " +
 			"Non-trivial = every committed block; distinct = (K, members, updates in the block, validators known).",
 		Assume: []string{"the harness applies updates with cometbft/types.ValidatorSet.UpdateWithChangeSet exactly as CometBFT's state machine does", "validator 0 (the proposing node) is never punished"},
-		Cases:  func(tier string) int { return map[string]int{"quick": 48 + 8, "thorough": 320 + 60}[tier] },
+		Cases:  func(tier string) int { return map[string]int{"quick": 48 + 8 + 1, "thorough": 320 + 60 + 1}[tier] },
 		Run: func(c *vc.Ctx, i int) {
+			if last := map[string]int{"quick": 48 + 8, "thorough": 320 + 60}[c.Tier]; i == last {
+				c13Bounds(c)
+				return
+			}
 			if base := map[string]int{"quick": 48, "thorough": 320}[c.Tier]; i >= base {
 				combinedHistory(c, i-base, "c13x", c.Pick(60, 150), nil, func(h *lockHist) (func(), func()) {
 					h.crashFn = func(cr *world.ErrCrash) {
